@@ -326,6 +326,12 @@ func runE2E(s e2eScript, id int, loader bool) (sig, msg string) {
 	if ck := readCheckpointFor(tgt, "redis-shake-checkpoint", src.Addr()); ck.found && len(want) > 0 && (ck.runid != c08RunID || !ck.hasVer) {
 		return "e2e:checkpoint-runid", fmt.Sprintf("newest checkpoint (offset %d, db %d) carries run id %q (version present: %v); the offsets were produced under run id %q", ck.offset, ck.db, ck.runid, ck.hasVer, c08RunID)
 	}
+	// with resume on, data and its checkpoint travel in one transaction: no data command is applied outside MULTI/EXEC
+	for _, cm := range log {
+		if cm.Name == "rpush" && !cm.InTx {
+			return "e2e:data-outside-transaction", fmt.Sprintf("resume is on, yet %s was applied outside a MULTI/EXEC block (so without its checkpoint)", cm)
+		}
+	}
 	// every database this run stored an offset in also holds the run id and the version (a restart reading that database
 	// as the newest one must not be told "unknown run id")
 	for _, cm := range log {
